@@ -151,6 +151,8 @@ def pipeline(ctx, pid, nrand_quick=1000, nrand_thorough=12000):
 
 def evidence(mc, gstats, summ, lines, nseg, nev, drift):
     stim_kinds, distinct = {}, set()
+    import collections
+    multi = collections.Counter()
     cur = []
     for ln in lines:
         if '"e":"reset"' in ln:
@@ -158,9 +160,25 @@ def evidence(mc, gstats, summ, lines, nseg, nev, drift):
                 distinct.add(hash(tuple(cur)))
             cur = []
         elif '"e":"step"' in ln:
-            s = json.loads(ln)["s"]
+            d = json.loads(ln)
+            s = d["s"]
             stim_kinds[s["a"]] = stim_kinds.get(s["a"], 0) + 1
-            cur.append((s["a"], s.get("p"), s.get("c"), s.get("addr")))
+            cur.append((s["a"], s.get("p"), s.get("c"), s.get("addr"), s.get("tr")))
+            # two-transport paths actually taken by the real manager
+            opens = [c for c in d["calls"] if c["c"] == "open"]
+            if len(opens) == 2:
+                multi["dial_opened_on_both_transports"] += 1
+            if s["a"] == "open_fail" and not d["events"]:
+                multi["open_failure_not_last_transport"] += 1
+            if s["a"] == "open_fail" and d["events"] and len(d["events"][0].get("addrs", [])) > 1 and any(a.endswith(("w", "x")) for a in d["events"][0]["addrs"]) \
+                    and any(not a.endswith(("w", "x")) for a in d["events"][0]["addrs"]):
+                multi["failure_report_groups_both_transports"] += 1
+            if s["a"] == "opened" and sum(1 for c in d["calls"] if c["c"] == "cancel") == 2:
+                multi["opened_cancels_other_transport"] += 1
+            if s["a"] in ("in_est", "established") and sum(1 for c in d["calls"] if c["c"] == "cancel") == 2:
+                multi["connection_supersedes_open_on_both_transports"] += 1
+            if any(c.get("tr") == "w" for c in d["calls"]):
+                multi["steps_with_ws_calls"] += 1
     if cur:
         distinct.add(hash(tuple(cur)))
     samples = []
@@ -185,6 +203,7 @@ def evidence(mc, gstats, summ, lines, nseg, nev, drift):
         "generation": gstats,
         "harness": summ,
         "stimuli_exercised": stim_kinds,
+        "two_transport_paths": dict(multi),
         "impl_divergences": len(drift),
         "exhaustive": False,
     }
